@@ -33,8 +33,12 @@
     `dof ≤ 0`. On `XR` this cannot happen (`unpaired_total_XR`: the value is NaN/+∞ — z branch — or
     positive). At exact reals (`Rex`, where `0/0 = 0`) it can only happen for two constant samples,
     which is an artefact of the carrier (`unpaired_total_Rex`).
-  * `ci_sorted_unchecked` does not inspect its slice: a NaN inside it can come back as a bound. This
-    is what "unchecked" documents; `quantile::ci` is covered (`ok_never_nan`).
+  * `ci_sorted_unchecked` does not check that its slice is sorted — this is what "unchecked"
+    documents — but it does check the elements it selects: one that is not comparable with itself
+    (a NaN) is answered by `InvalidInputData` and never comes back as a bound
+    (`sorted_unchecked_ok_selfCmp`, `sorted_unchecked_ok_never_nan`, `sorted_unchecked_rejects_nan`),
+    for any slice, sorted or not. A NaN at a rank that is not selected goes unnoticed. `quantile::ci`
+    sorts first and panics on a NaN there (`quantile_ci_panic_iff`, `ok_never_nan`).
 -/
 import StatsCI.Lemmas.Total
 
@@ -185,16 +189,16 @@ theorem unpaired_panic_iff (crit : Crit W) (conf : Confidence W) (u : Unpaired F
     (Unpaired.ciMean crit u conf).isPanic = true ↔
       2 ≤ u.a.count ∧ 2 ≤ u.b.count ∧ isFinite (Unpaired.meanDiff u) = true ∧
       isFinite (Unpaired.semF u) = true ∧
-      ((lt (Widen.up (Unpaired.dofF u) : W) (populationLimit : W) = true ∧
-          gt (Widen.up (Unpaired.dofF u) : W) (zero : W) = false) ∨
+      ((lt (Unpaired.dofW u : W) (populationLimit : W) = true ∧
+          gt (Unpaired.dofW u : W) (zero : W) = false) ∨
         probOk conf.quantile = false) :=
   Unpaired.ciMean_isPanic_iff crit u conf
 
 /-- hence: never a panic when the effective degrees of freedom are positive or not below the limit -/
 theorem unpaired_total (crit : Crit W) (conf : Confidence W) (hq : probOk conf.quantile = true)
     (u : Unpaired F)
-    (hd : lt (Widen.up (Unpaired.dofF u) : W) (populationLimit : W) = true →
-      gt (Widen.up (Unpaired.dofF u) : W) (zero : W) = true) :
+    (hd : lt (Unpaired.dofW u : W) (populationLimit : W) = true →
+      gt (Unpaired.dofW u : W) (zero : W) = true) :
     (Unpaired.ciMean crit u conf).isPanic = false := by
   rw [Bool.eq_false_iff]
   intro hp
@@ -425,17 +429,49 @@ theorem ciIndices_total (crit : Crit W) (conf : Confidence W) (hq : probOk conf.
 
 /-- `ci_sorted_unchecked`: `InvalidQuantile` outside `(0,1)`; element access never leaves the slice
     (the indices come out of `index`, clamped at `n − 1`, and `n ≥ 4`), so never a panic; an `Ok`
-    consists of the slice elements at the computed positions, with `¬ lo > hi` -/
+    consists of the slice elements at the computed positions, each comparable with itself
+    (`Quantile.PickOk`: on floats, not a NaN), with `¬ lo > hi`; an element at a selected rank that is
+    not comparable with itself is `InvalidInputData`; and every error is an error of the index
+    computation, that `InvalidInputData`, or `InvalidBounds` for a two-sided pick with `lo > hi`
+    (possible only on a slice that was not sorted) -/
 theorem ciSortedUnchecked_total {T : Type} [Cmp T] (crit : Crit W) (conf : Confidence W)
     (hq : probOk conf.quantile = true) (sorted : List T) (q : W) :
     ((gt q (zero : W) && lt q (one : W)) = false →
       Quantile.ciSortedUnchecked crit conf sorted q = .err (.invalidQuantile q)) ∧
     (Quantile.ciSortedUnchecked crit conf sorted q).isPanic = false ∧
     (∀ i, Quantile.ciSortedUnchecked crit conf sorted q = .ok i →
-      ∃ idx, Quantile.ciIndices crit conf sorted.length q = .ok idx ∧ Quantile.PickOk sorted idx i) :=
+      ∃ idx, Quantile.ciIndices crit conf sorted.length q = .ok idx ∧ Quantile.PickOk sorted idx i) ∧
+    (∀ idx r x, Quantile.ciIndices crit conf sorted.length q = .ok idx → Quantile.Selects idx r →
+      sorted[r]? = some x → le x x = false →
+      Quantile.ciSortedUnchecked crit conf sorted q = .err .invalidInputData) ∧
+    (∀ e, Quantile.ciSortedUnchecked crit conf sorted q = .err e →
+      Quantile.ciIndices crit conf sorted.length q = .err e ∨
+      ∃ idx, Quantile.ciIndices crit conf sorted.length q = .ok idx ∧
+        ((e = .invalidInputData ∧
+            ∃ r x, Quantile.Selects idx r ∧ sorted[r]? = some x ∧ le x x = false) ∨
+         (e = .interval .invalidBounds ∧ ∃ lo hi a b, idx = .twoSided lo hi ∧
+            sorted[lo]? = some a ∧ sorted[hi]? = some b ∧ gt a b = true))) :=
   ⟨Quantile.ciSortedUnchecked_of_bad_q crit conf sorted,
     Quantile.ciSortedUnchecked_isPanic crit conf sorted q hq,
-    fun _ h => Quantile.ciSortedUnchecked_eq_ok h⟩
+    fun _ h => Quantile.ciSortedUnchecked_eq_ok h,
+    fun _ _ _ hidx hr hx hxx => Quantile.ciSortedUnchecked_of_incomparable hidx hr hx hxx,
+    fun _ h => Quantile.ciSortedUnchecked_eq_err h⟩
+
+/-- the pre-sorted entry point checks what it selects: on every element type, for every slice
+    (sorted or not, with or without incomparable elements), every critical-value oracle, confidence
+    and quantile, a bound of an `Ok` of `ci_sorted_unchecked` is comparable with itself. (No
+    hypothesis at all: `Quantile.SelfCmp` spelled out in the last three conjuncts.) -/
+theorem sorted_unchecked_ok_selfCmp {T : Type} [Cmp T] (crit : Crit W) (conf : Confidence W)
+    (xs : List T) (q : W) (iv : Interval T)
+    (h : Quantile.ciSortedUnchecked crit conf xs q = .ok iv) :
+    Quantile.SelfCmp iv ∧
+    (∀ a b, iv = .twoSided a b → le a a = true ∧ le b b = true) ∧
+    (∀ a, iv = .upper a → le a a = true) ∧ (∀ b, iv = .lower b → le b b = true) := by
+  have hs := Quantile.ciSortedUnchecked_ok_selfCmp h
+  refine ⟨hs, ?_, ?_, ?_⟩
+  · rintro a b rfl; exact hs
+  · rintro a rfl; exact hs
+  · rintro b rfl; exact hs
 
 /-- `quantile::ci` panics only through the sort: at least two elements, one of them not comparable
     with itself (`partial_cmp(..).unwrap()` on a NaN) -/
@@ -546,7 +582,9 @@ theorem invalid_successes {W : Type} [Scalar W] (crit : Crit W) (conf : Confiden
     proportion intervals all bounds are in fact finite and `lo ≤ hi` (`XR.FinIv`); for the harmonic
     mean a bound can be `+∞` (a reciprocal-space bound that is not strictly positive is read as
     `+∞`) but not NaN — and never zero or negative: `harmonic_bounds_positive_XR`; for `quantile::ci`
-    the bounds are data elements and the sort has rejected NaN. For `ci_wilson` / `ci_wilson_ratio`
+    the bounds are data elements and the sort has rejected NaN; for `ci_sorted_unchecked` the bounds
+    are slice elements that passed the self-comparison check (`sorted_unchecked_ok_never_nan`; the
+    hypothesis on `crit` is not needed there). For `ci_wilson` / `ci_wilson_ratio`
     the hypothesis on `crit` is not even needed, and the bounds lie in `[0, 1]`: `wilson_ok_unit_XR`. -/
 theorem ok_never_nan (crit : Crit XR) (conf : Confidence XR)
     (hc : ∀ r, isFinite (crit r) = true) (i : Interval XR) :
@@ -563,7 +601,8 @@ theorem ok_never_nan (crit : Crit XR) (conf : Confidence XR)
     (∀ (n : Nat) (rate : XR), Proportion.ciWilsonRatio crit conf n rate = .ok i → XR.FinIv i) ∧
     (∀ (xs : List XR) (q : XR), Quantile.ci crit conf xs q = .ok i → XR.NoNaN i) ∧
     (∀ (cap : Nat) (xs : List XR) (q : XR), Quantile.ciMaxSize cap crit conf xs q = .ok i →
-      XR.NoNaN i) := by
+      XR.NoNaN i) ∧
+    (∀ (xs : List XR) (q : XR), Quantile.ciSortedUnchecked crit conf xs q = .ok i → XR.NoNaN i) := by
   refine ⟨fun a h => (XR.arith_ciMean_ok_finIv crit a conf hc h).1,
     fun xs h => (XR.arith_ciMean_ok_finIv crit _ conf hc h).1, fun as bs h => ?_,
     fun u h => XR.unpaired_ciMean_ok_finIv crit u conf hc h,
@@ -572,7 +611,8 @@ theorem ok_never_nan (crit : Crit XR) (conf : Confidence XR)
     fun n k h => XR.ciWilson_ok_finIv crit conf n k h,
     fun n k h => XR.ciZNormal_ok_finIv crit conf n k hc h,
     fun n rate h => XR.ciWilsonRatio_ok_finIv crit conf n rate h,
-    fun xs q h => XR.quantile_ci_ok_noNaN crit conf xs q h, fun cap xs q h => ?_⟩
+    fun xs q h => XR.quantile_ci_ok_noNaN crit conf xs q h, fun cap xs q h => ?_,
+    fun xs q h => XR.ciSortedUnchecked_ok_noNaN crit conf xs q h⟩
   · by_cases hl : as.length = bs.length
     · rw [Paired.ci_of_length_eq crit conf hl] at h
       exact (XR.arith_ciMean_ok_finIv crit _ conf hc h).1
@@ -717,21 +757,71 @@ example : ∃ i : Interval Rex,
     Proportion.ciWilson (constCrit 0 : Crit Rex) (.twoSided (inj 0.95)) 10 5 = .ok i :=
   Examples.wilson_ok_Rex
 
-/-- `ci_sorted_unchecked` is unchecked: a slice of NaNs comes back as an `Ok` with NaN bounds
-    whenever the index computation succeeds -/
-theorem sorted_unchecked_passes_nan (crit : Crit XR) (conf : Confidence XR) (q : XR) (n lo hi : Nat)
-    (h : Quantile.ciIndices crit conf n q = .ok (.twoSided lo hi)) :
-    Quantile.ciSortedUnchecked crit conf (List.replicate n XR.nan) q =
-      .ok (.twoSided XR.nan XR.nan) := by
-  obtain ⟨hq, hn, hok⟩ := Quantile.ciIndices_eq_ok h
-  cases conf <;> simp only [Quantile.IdxOk] at hok
-  have hlo : lo < (List.replicate n XR.nan).length := by simp; omega
-  have hhi : hi < (List.replicate n XR.nan).length := by simp; omega
-  unfold Quantile.ciSortedUnchecked
-  simp only [hq, Bool.not_true, Bool.false_eq_true, if_false, List.length_replicate, h,
-    Outcome.bind_ok]
-  rw [Quantile.nth_of_lt _ hlo, Quantile.nth_of_lt _ hhi]
-  simp [Interval.new, liftI]
+/-! ### the pre-sorted entry point `ci_sorted_unchecked` on `XR` -/
+
+/-- On `XR`, for *any* slice — sorted or not, with or without NaN —, any critical-value oracle, any
+    confidence and any quantile: an `Ok` of `ci_sorted_unchecked` never has a NaN bound. (No hypothesis
+    on `crit`, on `conf` or on the data; `XR.NoNaN` spelled out in the last three conjuncts.) -/
+theorem sorted_unchecked_ok_never_nan (crit : Crit XR) (conf : Confidence XR) (xs : List XR) (q : XR)
+    (iv : Interval XR) (h : Quantile.ciSortedUnchecked crit conf xs q = .ok iv) :
+    XR.NoNaN iv ∧
+    (∀ a b, iv = .twoSided a b → a ≠ .nan ∧ b ≠ .nan) ∧
+    (∀ a, iv = .upper a → a ≠ .nan) ∧ (∀ b, iv = .lower b → b ≠ .nan) := by
+  have hs := XR.ciSortedUnchecked_ok_noNaN crit conf xs q h
+  refine ⟨hs, ?_, ?_, ?_⟩
+  · rintro a b rfl; exact hs
+  · rintro a rfl; exact hs
+  · rintro b rfl; exact hs
+
+/-- the premise is satisfiable, on a slice that is neither sorted nor free of NaN: ten observations
+    with a NaN at rank 0, both selected ranks are 5 -/
+example : Quantile.ciSortedUnchecked (fun _ => XR.fin 0) (.twoSided (XR.fin 0.95))
+    [XR.nan, XR.fin 9, XR.fin 2, XR.fin 3, XR.fin 4, XR.fin 5, XR.fin 6, XR.fin 7, XR.fin 8, XR.fin 1]
+    (XR.fin 0.5) = .ok (.twoSided (XR.fin 5) (XR.fin 5)) := Examples.sortedUnchecked_ok_XR
+
+/-- the same instance for the carrier-independent form `sorted_unchecked_ok_selfCmp` -/
+example : ∃ iv : Interval XR,
+    Quantile.ciSortedUnchecked (fun _ => XR.fin 0) (.twoSided (XR.fin 0.95)) Examples.xsNanOff
+      (XR.fin 0.5) = .ok iv := ⟨_, Examples.sortedUnchecked_ok_XR⟩
+
+/-- a NaN at a selected rank is `InvalidInputData` (where the crate used to return `Ok` with a NaN
+    bound): whenever the index computation succeeds and the slice holds a NaN at one of the ranks it
+    selects -/
+theorem sorted_unchecked_rejects_nan (crit : Crit XR) (conf : Confidence XR) (q : XR) (xs : List XR)
+    (idx : Interval Nat) (r : Nat)
+    (h : Quantile.ciIndices crit conf xs.length q = .ok idx) (hr : Quantile.Selects idx r)
+    (hx : xs[r]? = some XR.nan) :
+    Quantile.ciSortedUnchecked crit conf xs q = .err .invalidInputData :=
+  Quantile.ciSortedUnchecked_of_incomparable h hr hx (by simp)
+
+/-- the premises are satisfiable: ten observations with a NaN at rank 5, the median; the ranks
+    selected are 5 and 5 -/
+example : Quantile.ciSortedUnchecked (fun _ => XR.fin 0) (.twoSided (XR.fin 0.95))
+    [XR.fin 0, XR.fin 1, XR.fin 2, XR.fin 3, XR.fin 4, XR.nan, XR.fin 6, XR.fin 7, XR.fin 8, XR.fin 9]
+    (XR.fin 0.5) = .err .invalidInputData := Examples.sortedUnchecked_nan_XR
+
+example : Quantile.ciIndices (fun _ => XR.fin 0) (.twoSided (XR.fin 0.95)) Examples.xsNanAt.length
+      (XR.fin 0.5) = .ok (.twoSided 5 5) ∧ Quantile.Selects (.twoSided 5 5) 5 ∧
+    Examples.xsNanAt[5]? = some XR.nan := ⟨Examples.ciIndices_ok, Or.inl rfl, rfl⟩
+
+/-- in particular a slice of NaNs — which used to come back as `Ok([NaN, NaN])` — is now
+    `InvalidInputData` whenever the index computation succeeds, for every kind of confidence -/
+theorem sorted_unchecked_rejects_nan_slice (crit : Crit XR) (conf : Confidence XR) (q : XR) (n : Nat)
+    (idx : Interval Nat) (h : Quantile.ciIndices crit conf n q = .ok idx) :
+    Quantile.ciSortedUnchecked crit conf (List.replicate n XR.nan) q = .err .invalidInputData := by
+  obtain ⟨_, hn, hok⟩ := Quantile.ciIndices_eq_ok h
+  have h' : Quantile.ciIndices crit conf (List.replicate n XR.nan).length q = .ok idx := by
+    rw [List.length_replicate]; exact h
+  cases conf <;> cases idx <;> simp only [Quantile.IdxOk] at hok
+  · rename_i l lo hi
+    exact sorted_unchecked_rejects_nan crit _ q _ _ lo h' (Or.inl rfl)
+      (by rw [List.getElem?_replicate, if_pos (by omega)])
+  · rename_i l lo
+    exact sorted_unchecked_rejects_nan crit _ q _ _ lo h' rfl
+      (by rw [List.getElem?_replicate, if_pos (by omega)])
+  · rename_i l hi
+    exact sorted_unchecked_rejects_nan crit _ q _ _ hi h' rfl
+      (by rw [List.getElem?_replicate, if_pos (by omega)])
 
 /-- the hypothesis is satisfiable: ten observations, the median -/
 example : Quantile.ciIndices (fun _ => XR.fin 0) (.twoSided (XR.fin 0.95)) 10 (XR.fin 0.5) =
